@@ -83,38 +83,44 @@ def classify(step, cfg) -> str | None:
     return None
 
 
-def judge(steps, cfg) -> list[dict]:
+def judge(steps, cfg, faulted: bool | None = None) -> list[dict]:
     """every way a run can disagree.  kind 'property' = the implementation contradicts the property statement on this case;
-    kind 'correspondence' = it differs from the model while the statement still holds."""
+    kind 'correspondence' = it differs from the model while the statement still holds.
+    Fault flags are the implementation's own (calls that really failed at the stub).  Once the wire traces diverge the model
+    is no longer in step with the implementation: in a fault-free run the reference (which never depends on the model)
+    keeps judging the results; in a run with connection faults judging stops there."""
     sup = bool(cfg.get("suppress", True))
     facade = bool(cfg.get("facade"))
+    if faulted is None:
+        faulted = any(s["failed"] or s["anydown"] for s in steps)
     out = []
+    diverged = False
     for i, s in enumerate(steps):
         op, impl, model, spec = s["op"], s["impl"], s["model"], s["spec"]
         if impl.startswith("?"):
             out.append({"i": i, "kind": "property", "what": f"result of an unexpected type/shape: {impl}", "sig": None})
             continue
         probs = []
-        same_as_model = impl == model or (facade and op[0] == "keyscount" and impl == "n=0" and model == "N")
+        kc = facade and op[0] == "keyscount" and impl == "n=0"          # the facade sums `count or 0`
+        same_as_model = impl == model or (kc and model == "N")
+        failed, alldown = s["failed"] > 0, (s["calls"] > 0 and s["failed"] == s["calls"])
         # (b) the property itself
-        if spec != "~":
-            ok_spec = impl == spec or (facade and op[0] == "keyscount" and impl == "n=0" and spec == "N")
-            if not ok_spec:
+        if not failed:
+            if spec != "~" and not (impl == spec or (kc and spec == "N")):
                 probs.append(("property", f"`{s['line']}` -> impl {impl} {s['detail']}, reference {spec}"))
+        elif sup:
+            if op[0] == "ping":
+                if impl != "RAISE":
+                    probs.append(("property", f"ping did not raise while the server was down: {impl}"))
+            elif impl.startswith("RAISE"):
+                probs.append(("property", f"`{s['line']}` raised with suppression on while the server was down: {impl} {s['detail']}"))
+            elif alldown and impl != s["fv"] and not (kc and s["fv"] == "N"):
+                probs.append(("property", f"`{s['line']}` with the server down answered {impl}, failure value is {s['fv']}"))
         else:
-            if sup:
-                if op[0] == "ping":
-                    if s["failed"] and impl != "RAISE":
-                        probs.append(("property", f"ping did not raise while the server was down: {impl}"))
-                elif impl.startswith("RAISE"):
-                    probs.append(("property", f"`{s['line']}` raised with suppression on while the server was down: {impl} {s['detail']}"))
-                elif s["alldown"] and impl != s["fv"] and not (facade and op[0] == "keyscount" and impl == "n=0"):
-                    probs.append(("property", f"`{s['line']}` with the server down answered {impl}, failure value is {s['fv']}"))
-            else:
-                if s["failed"] and impl != "RAISE":
-                    probs.append(("property", f"`{s['line']}` with suppression off and a failed call did not raise CacheBackendInteractionError: {impl} {s['detail']}"))
+            if impl != "RAISE":
+                probs.append(("property", f"`{s['line']}` with suppression off and a failed call did not raise CacheBackendInteractionError: {impl} {s['detail']}"))
         # (a) the model
-        if not probs:
+        if not probs and not diverged:
             if s["impl_wire"] != s["model_wire"]:
                 probs.append(("correspondence", f"wire trace of `{s['line']}` differs: impl {show_wire(s['impl_wire'])} model {show_wire(s['model_wire'])}"))
             elif not same_as_model:
@@ -127,6 +133,10 @@ def judge(steps, cfg) -> list[dict]:
                     probs.append(("model-vs-reference", f"model keyspace after `{s['line']}` differs from the reference's: {d_model} vs {d_spec}"))
         for kind, what in probs:
             out.append({"i": i, "kind": kind, "what": what, "sig": classify(s, cfg) if kind == "property" else None})
+        if s["impl_wire"] != s["model_wire"] or (probs and probs[0][0] != "property"):
+            diverged = True
+            if faulted:
+                break
     return out
 
 
@@ -192,6 +202,7 @@ class Ctx:
         self.reported_sigs: set = set()
         self.found = 0
         self.fault_variants = 0
+        self.pending_corr = None     # first correspondence-only disagreement: reported at the end unless a failing input turns up
 
     def run(self, cfg, ops, faults):
         if cfg.get("facade") and any(op[0] == "delmany" and not op[1] for op in ops):
@@ -216,7 +227,12 @@ class Ctx:
         """report the problems of one case; True if a fresh (not known) violation was reported"""
         fresh = False
         done = set()
-        for p in problems:
+        if not any(p["kind"] == "property" for p in problems):
+            # the implementation differs from the model but the property held on this case: keep searching for a failing input
+            if self.pending_corr is None:
+                self.pending_corr = (cfg, ops, faults, problems[0], origin)
+            return False
+        for p in [q for q in problems if q["kind"] == "property"]:
             key = (p["kind"], p["sig"])
             if key in done:
                 continue
@@ -250,6 +266,31 @@ class Ctx:
             self.found += 1
             fresh = True
         return fresh
+
+
+def _report_correspondence(self):
+    cfg, ops, faults, p, origin = self.pending_corr
+    target = p["kind"]
+
+    def fails(sub):
+        _, pr = self.run(cfg, sub, faults)
+        return bool(pr) and not any(q["kind"] == "property" for q in pr) and any(q["kind"] == target for q in pr)
+
+    small = ddmin(ops, fails) if len(ops) > 1 else ops
+    steps2, pr2 = self.run(cfg, small, faults)
+    p2 = next((q for q in pr2 if q["kind"] == target), None)
+    if p2 is None:
+        raise HarnessError(f"disagreement not reproducible on re-run: {p['what']}")
+    what = ("model differs from the reference although the theorem says it cannot: " if target == "model-vs-reference" else
+            "correspondence broken (backend.py/client.py vs the Lean model; no input contradicting the property statement was found in this run): ")
+    self.chk.violation(what + p2["what"] + f" (config {cfg}, faults {faults})",
+                       dict(replay_dict(cfg, small, faults, steps2, p2, origin),
+                            broken="correspondence Model/RedisBackend.lean + SafeClient.lean <-> cashews/backends/redis/{backend,client}.py"),
+                       signature=None, no_input=True)
+    self.found += 1
+
+
+Ctx.report_correspondence = _report_correspondence
 
 
 def replay_dict(cfg, ops, faults, steps, p, origin):
@@ -535,6 +576,8 @@ def run(chk: Check) -> int:
                 if probs2 and ctx.handle(cfg, ops, faults, steps2, probs2, f"gen:{i}+faults"):
                     break
         ndeco, ndeco_nt = decorator_stage(chk, ctx)
+        if ctx.pending_corr is not None and ctx.found == 0:
+            ctx.report_correspondence()
         if proof is not None:
             chk.proof_broken(proof, ctx.found > 0)
         chk.coverage.update({
